@@ -204,7 +204,7 @@ def encode_op(op):
 
 def apply_op(g, op, geo=None):
     if op[0] == 'rn': g.rename_blocks(dict(op[1]), fix_blocknames=bool(op[2]))
-    elif op[0] == 'wr': reread(g)                      # a data file is written in between (a checkpoint); nothing is done with it
+    elif op[0] == 'wr': reread(g, op[1] if len(op) > 1 else 'in-file')       # a data file is written in between (a checkpoint); nothing is done with it
     elif op[0] == 'ro':
         if len(op) > 3 and op[3] == 'geo-dmplex' and geo is not None:
             try:
@@ -360,10 +360,10 @@ def fresh_name(rng, taken, zero_tail=False):
         if n not in taken: return n
 
 
-def write_changes_grid(g):
+def write_changes_grid(g, mode='in-file'):
     """writing a data file is an observation: the grid in memory must be the same afterwards (None) -- else the first difference"""
     before = dump(g)
-    reread(g)
+    reread(g, mode)
     after = dump(g)
     if before == after: return None
     for a, b in zip(before.split(','), after.split(',')):
@@ -447,16 +447,28 @@ class Stats(object):
         if key not in self.fail: self.fail[key] = (inp, observed, required)
 
 
-def reread(g):
-    """the grid after t2data.write / t2data(filename)"""
+FILE_MODES = ('in-file', 'ascii-mesh', 'binary-mesh')
+
+
+def file_mode_for(rng, g):
+    """where ELEME / CONNE go: into the data file, into a separate ASCII MESH file, or into the binary MESHA / MESHB pair
+    (which the library can only write when every block has a centre)"""
+    mode = rng.choice(['in-file', 'in-file', 'ascii-mesh', 'binary-mesh', 'binary-mesh'])
+    if mode == 'binary-mesh' and any(b.centre is None for b in g.blocklist): mode = 'ascii-mesh'
+    return mode
+
+
+def reread(g, mode='in-file'):
+    """the grid after t2data.write / t2data(filename), the mesh in the data file, in an ASCII MESH file or in binary MESHA / MESHB"""
     import tempfile, shutil
     from t2data import t2data
     d = tempfile.mkdtemp()
     try:
         dat = t2data(); dat.grid = g
         fn = os.path.join(d, 'rt.dat')
-        dat.write(fn)
-        return t2data(fn).grid
+        mesh = '' if mode == 'in-file' else os.path.join(d, 'MESH') if mode == 'ascii-mesh' else (os.path.join(d, 'MESHA'), os.path.join(d, 'MESHB'))
+        dat.write(fn, meshfilename=mesh)
+        return t2data(fn, meshfilename=mesh).grid
     finally: shutil.rmtree(d, ignore_errors=True)
 
 
@@ -484,9 +496,12 @@ def file_formats():
 
 
 def carried(a, b, fmt):
-    """b is a read back from a field of format fmt: equal to the digits the field carries (either sign: the signature re-orients cosines)"""
+    """b is a read back from a field of format fmt: equal to the digits the field carries (either sign: the signature re-orients cosines);
+    fmt None: a binary 8-byte field, the value itself"""
+    if fmt is None and a is None: return b is None or b != b        # the binary mesh file holds a missing value as NaN
     if a is None or b is None: return a is None and b is None
     a, b = float(a), float(b)
+    if fmt is None: return abs(a - b) <= 1e-12 * max(abs(a), abs(b))
     hs = [h for h in (field_half_unit(a, fmt), field_half_unit(-a, fmt)) if h is not None]
     if not hs: return False
     return abs(a - b) <= max(hs) * (1. + 1e-9) + 1e-300
@@ -497,11 +512,12 @@ def centre_close(c, c2, fmts):
     return len(c) == len(c2) and all(carried(a, b, f) for a, b, f in zip(c, c2, fmts))
 
 
-def file_roundtrip_diff(g, ph):
+def file_roundtrip_diff(g, ph, mode='in-file'):
     """write the grid in a TOUGH2 data file and read it back: the whole signature (volume, rock type, centre of every block;
     area, direction, own distances, oriented cosine of every connected pair) must come back to the digits its field carries"""
-    back = reread(g)
+    back = reread(g, mode)
     F = file_formats()
+    if mode == 'binary-mesh': F = {'volume': None, 'centre': (None, None, None), 'distance': (None, None), 'area': None, 'dircos': None}
     (B, C), (B2, C2) = ph, phys(back)
     if set(B) != set(B2): return 'block names differ after write/read: %r' % sorted(set(B) ^ set(B2))[:4]
     for n in B:
@@ -591,8 +607,9 @@ def reorder_rename_worker(args):
             ph = got if broken else want
             if do_file and not broken and t >= 1 and t < nops - 1 and rng.random() < 0.6:
                 # a checkpoint: the data file is written in the middle of the sequence and the edits go on
-                hist.append(('wr',)); st.kinds['write:checkpoint-between-edits'] += 1
-                try: d = write_changes_grid(g)
+                cmode = file_mode_for(rng, g)
+                hist.append(('wr', cmode)); st.kinds['write:checkpoint-between-edits:' + cmode] += 1
+                try: d = write_changes_grid(g, cmode)
                 except Exception as e:
                     d = None; st.skipped['file-round-trip-raised:' + exn_name(e)] += 1
                 if d:
@@ -600,15 +617,17 @@ def reorder_rename_worker(args):
                     st.failure('write:changes-the-grid-in-memory', {'geo': list(params), 'ops': [list(o) for o in hist]}, d, 'writing the data file leaves the grid as it is')
         if do_file and not broken:
             st.kinds['write-read:atmos_type:%d%s' % (params[3], ':first-block-moved' if g.blocklist[0] is not first_obj else '')] += 1
+            fmode = file_mode_for(rng, g)
+            st.kinds['write-read:' + fmode] += 1
             try:
                 before = dump(g)
-                d = file_roundtrip_diff(g, ph); st.filerounds += 1
+                d = file_roundtrip_diff(g, ph, fmode); st.filerounds += 1
                 if not d and dump(g) != before:
-                    st.failure('write:changes-the-grid-in-memory', {'geo': list(params), 'ops': [list(o) for o in hist] + [['wr']]}, 'the dump of the grid in memory differs after t2data.write',
+                    st.failure('write:changes-the-grid-in-memory', {'geo': list(params), 'ops': [list(o) for o in hist] + [['wr', fmode]]}, 'the dump of the grid in memory differs after t2data.write',
                                'writing the data file leaves the grid as it is')
             except Exception as e:
                 d = None; st.skipped['file-round-trip-raised:' + exn_name(e)] += 1
-            if d: st.failure('write-read:after-reorder-rename', {'geo': list(params), 'ops': [list(o) for o in hist]}, d,
+            if d: st.failure('write-read:after-reorder-rename', {'geo': list(params), 'ops': [list(o) for o in hist], 'file_mode': fmode}, d,
                              'the signature survives t2data.write / t2data(filename) to file precision')
         line = '%s%d\t' % ('H' if hash_mode else 'F', len(prefix) - 1) + '\t'.join(prefix + [encode_op(o) for o in ops])
         st.cases += 1
@@ -724,8 +743,9 @@ def minc_worker(args):
         if exc: st.kinds['raises:' + exc] += 1
         lines.append(line); cases.append(case); expects.append('E:' + exc if exc else qdump(g))
         if with_files and not exc and not d and rng.random() < with_files and len(g.blocklist) <= 150:
+            fmode = file_mode_for(rng, g); case['file_mode'] = fmode; st.kinds['write-read:' + fmode] += 1
             try:
-                fd = file_roundtrip_diff(g, phys(g)); st.filerounds += 1
+                fd = file_roundtrip_diff(g, phys(g), fmode); st.filerounds += 1
             except Exception as e:
                 fd = None; st.skipped['file-round-trip-raised:' + exn_name(e)] += 1
             if fd: st.failure('write-read:after-minc', case, fd, 'the MINC grid (volumes of every continuum, the nested connections) survives t2data.write / t2data(filename) to file precision')
@@ -986,7 +1006,8 @@ def run(ctx):
                 'extracted model (payload dump) and with the physical signature before; a sample (15% quick, 25% thorough; all three atmosphere types; at least three edits) starts with a block permutation that takes the first block '
                 '(the atmosphere block of a type-0 grid) off position 0 and ends with t2data.write / t2data(filename): the FULL signature (volume, rock type, CENTRE of every block; area, direction, own '
                 'distances, oriented cosine of every pair) must come back to file precision; its second edit renames one or two blocks to names the file spells differently (\'qa105\' is written \'qa1 5\'), data files are also written BETWEEN the '
-                'edits (checkpoints, 60% after each later edit) and every write must leave the grid in memory as it is; '
+                'edits (checkpoints, 60% after each later edit) and every write must leave the grid in memory as it is; each write puts ELEME/CONNE into the data file, into a separate ASCII MESH file or '
+                'into the binary MESHA/MESHB pair (binary only when every block has a centre; numbers then exact, a missing cosine comes back as NaN); '
                 '(2) minc with 2-6 volume fractions (summing to less than, exactly and more than 1; integers and floats), 1-3 fracture-plane sets, assorted spacings, all blocks (blocks omitted / None / a fresh [] / one [] object re-used by every such call of the worker process, so that an earlier call of the same process precedes most of them) or a random selection (names, the grid\'s block objects, or equal-named block objects of an identical second grid -- also as full selection; '
                 'the selection is by name) (names or block '
                 'objects, sometimes with a repeated name: refusal), three atmos_volume cut-offs, a non-default rock type in 30%: the whole grid afterwards is '
@@ -1037,7 +1058,7 @@ def replay(ctx, data):
         ph = phys(g)
         for o in case['ops']:
             if o[0] == 'wr':
-                d = write_changes_grid(g)
+                d = write_changes_grid(g, o[1] if len(o) > 1 else 'in-file')
                 if d: print('  ' + d); return True
                 continue
             op = (o[0], tuple(tuple(x) for x in o[1]), o[2]) if o[0] == 'rn' else (o[0], tuple(o[1]), tuple(tuple(c) for c in o[2])) + tuple(o[3:])
@@ -1050,7 +1071,7 @@ def replay(ctx, data):
                 print('  after %s: %s' % (op[0], d)); return True
             ph = want
         if data.get('finding_key', '').startswith('write-read'):
-            d = file_roundtrip_diff(g, ph)
+            d = file_roundtrip_diff(g, ph, case.get('file_mode', 'in-file'))
             if d: print('  ' + d); return True
         print('  physics unchanged'); return False
     if kind == 'minc':
@@ -1071,7 +1092,7 @@ def replay(ctx, data):
         out, exc = minc_check(g, case, sel)
         for key, obs, req in out: print('  %s: %s' % (key, obs))
         if not out and data.get('finding_key', '').startswith('write-read'):
-            d = file_roundtrip_diff(g, phys(g))
+            d = file_roundtrip_diff(g, phys(g), case.get('file_mode', 'in-file'))
             if d: print('  ' + d); return True
         return bool(out)
     if kind == 'embed':
